@@ -184,6 +184,15 @@ func instrument(src, dst string) (bool, error) {
 		if !ok {
 			return true
 		}
+		// make(chan T[, n]) -> vsched.MakeChan[T]([n]): logical capacity + hand-off to blocked receivers
+		if id, isId := call.Fun.(*ast.Ident); isId && id.Name == "make" && id.Obj == nil && len(call.Args) >= 1 {
+			if ct, isChan := call.Args[0].(*ast.ChanType); isChan && ct.Dir == ast.SEND|ast.RECV {
+				call.Fun = &ast.IndexExpr{X: &ast.SelectorExpr{X: ast.NewIdent("vsched"), Sel: ast.NewIdent("MakeChan")}, Index: ct.Value}
+				call.Args = call.Args[1:]
+				r.changed, r.needVS = true, true
+				return true
+			}
+		}
 		sel, ok := call.Fun.(*ast.SelectorExpr)
 		if !ok {
 			return true
